@@ -42,7 +42,9 @@ Definition dc_val (c : dcl) : Z :=
   match c with ADDED => 1 | REMOVED => 2 | MOVED_HERE => 3 | MOVED_TO => 4 end%Z.
 (* the harness renders an Enum member as [9, value] *)
 Definition dc_sx (c : dcl) : sx := L [A 9%Z; A (dc_val c)].
-Definition order_sx (i0 i1 : nat) : sx := L [sx_nat i0; sx_nat i1].   (* the tuple (i0, i1) *)
+(* the tuple (i0, i1); C11's harness renders a tuple as [7, i0, i1] so that it
+   can never be confused with an enum member *)
+Definition order_sx (i0 i1 : nat) : sx := L [A 7%Z; sx_nat i0; sx_nat i1].
 
 Definition rmeta (t : rt) : meta := i_meta (rinfo t).
 Definition mark (t : rt) : option sx := get_meta k_dc (rmeta t).
@@ -150,8 +152,10 @@ Definition info_has_dc (i : info) (c : dcl) : bool :=
 
 (* one iteration for the added node with identity [a]:
    removed_clones = the other nodes of t2 with the same data_id and dc == REMOVED *)
+(* (t2._node_by_id[nid] is ONE node, whose data_id is d; the test on d makes
+   the step well-behaved also on forests with repeated identities) *)
 Definition reclass_fn (a : nat) (d : did) (id : nat) (i : info) : info :=
-  if Nat.eqb id a then set_dc MOVED_HERE i
+  if Nat.eqb id a && did_eqb (i_did i) d then set_dc MOVED_HERE i
   else if did_eqb (i_did i) d && info_has_dc i REMOVED then set_dc MOVED_TO i
   else i.
 Definition reclass_step (f : forest) (a : nat) : forest :=
